@@ -24,6 +24,10 @@ var verifIndexLimit = indexSizeWithSafetyBuffer
 // the message ends inside a string: the kernel contract stub leaves the inside-quote carry set after the last block
 var verifEndInQuote = false
 
+// the ndjson flag this parse runs with: the kernel contract stub requires every kernel call to pass exactly this value
+// (what verifWant describes is REF-SCAN of the message in that mode)
+var verifWantNdjson uint64
+
 var verifWidthsU1 = []int{1, 5, 61}
 
 // gaps for the hand-over scenario: more than 64 bytes must remain after the block that fills the index buffer
@@ -111,6 +115,7 @@ func verifHarness_U1_ParseMessage() {
 		raw = append(raw, '\n')
 	}
 	verifWant = want
+	verifWantNdjson = uint64(nd)
 	pj := &internalParsedJson{}
 	if verifChoice("havoc", 2) == 1 {
 		verifHavocInternal(pj)
